@@ -155,7 +155,8 @@ def deep_equal(a, b):
 def search_runs(chk, r, n):
     import yadism
 
-    for _ in range(n):
+    previous = None  # (output, theory copy, observables copy) of the run before: it keeps echoing *its* cards
+    for i_run in range(n):
         scheme = r.choice(cards.SCHEMES)
         process = r.choice(["EM", "NC", "CC"])
         if scheme in ("FFN0", "FONLL-FFN0") and process != "CC":
@@ -169,6 +170,8 @@ def search_runs(chk, r, n):
         if r.random() < 0.4:
             obs[("XSHERACC" if process == "CC" else "XSHERANC") + "_total"] = [dict(x=0.1, Q2=20.0, y=0.3)]
         tgt = r.choice(["proton", "iron", "isoscalar", dict(Z=1.0, A=2.0)])
+        if i_run < 3:
+            tgt = [dict(Z=1.0, A=2.0), dict(A=56.0, Z=26.0), "neutron"][i_run]  # explicit compositions are nested dicts of the card
         t = cards.theory(PTO=r.choice([0, 1]), FNS=scheme, NfFF=r.choice([3, 4]), TMC=tmc, CKM=r.choice([cards.CKM_DEFAULT, [0.97428, 0.2253, 0.00347, 0.2252, 0.97345, 0.041, 0.00862, 0.0403, 0.999152]]))
         if r.random() < 0.3:
             del t["PTODIS"]
@@ -210,6 +213,17 @@ def search_runs(chk, r, n):
                         problems.append("results not in the order of the request")
             if list(out["pids"]) != realrun.BASIS or out["projectilePID"] != cards.PROJECTILES[proj_given]:
                 problems.append("pids / projectilePID wrong")
+            # the record belongs to the output: an earlier output still shows the cards of *its* run,
+            # and what the caller does to the dicts afterwards does not reach into the output
+            if previous is not None and not (deep_equal(previous[0].theory, previous[1]) and deep_equal(previous[0].observables, previous[2])):
+                problems.append("the output of the previous run no longer echoes the cards of that run")
+            t["mc"] = t["mc"] + 0.125
+            o["observables"]["__added_after_the_run__"] = []
+            if not (deep_equal(out.theory, t0) and deep_equal(out.observables, o0)):
+                problems.append("the cards recorded in the output change when the caller changes the dicts after the run")
+            del o["observables"]["__added_after_the_run__"]
+            t["mc"] = t0["mc"]
+            previous = (out, t0, o0)
         except Exception as e:
             chk.extra.setdefault("search_exceptions", {})
             k = f"{scheme}/{process}:{type(e).__name__}:{str(e)[:80]}"
